@@ -228,7 +228,29 @@ def _gen_type(rng, names=("ns.A", "ns.B")):
 
 
 def _gen_list(rng, k):
-    return [_gen_type(rng) for _ in range(rng.choice([1, 2, 2, 3, 4]))]
+    if k % 2 == 0:
+        return [_gen_type(rng) for _ in range(rng.choice([1, 2, 2, 3, 4]))]
+    # focused: several minor versions of one name under one major version
+    base = _gen_type(rng, names=("ns.A",))
+    out = []
+    minors = rng.sample([0, 1, 2, 3, 4], rng.choice([2, 3, 3, 4]))
+    for m in minors:
+        d = dict(base)
+        d["minor"] = m if (base["major"], m) != (0, 0) else 5
+        if rng.random() < 0.5:
+            d["fpid"] = rng.choice([None, 1, 2])
+        if rng.random() < 0.2:
+            d["extent"] = rng.choice([0, 8, 16])
+        if rng.random() < 0.15:
+            d["sealed"] = not d["sealed"]
+        if base["kind"] == "svc":
+            d["rq"] = dict(base["rq"])
+            d["rs"] = dict(base["rs"])
+            if rng.random() < 0.2:
+                d["rs"]["extent"] = rng.choice([0, 8])
+        out.append(d)
+    rng.shuffle(out)
+    return out
 
 
 def _build_list(fn_name):
